@@ -22,6 +22,15 @@ to the input; the evaluation point and the vector operands are left untouched.  
 (`SeqDiff`, harness-defined) is correct for distinct x/out but not alias-safe, so a combinator
 that hands an operand aliased buffers although the caller did not is visible; the expression
 classes are also built directly with the documented user temporaries (tmp, tmp_ran, tmp_dom).
+
+History clause (an expression is a value whose action is fixed when it is built): for every
+form that takes an element operand and copies it on the pinned tree (see `private_claimed`),
+the driver-owned element is overwritten in place after the first evaluation (``v *= 2``; v used
+as ``out=`` of an unrelated operator call; ``v.set_zero()``) and the expression - and its
+adjoint / derivative(x) / gradient, requested before and after - must give bit-identical
+results; at the end of a state the element operands inside the child are overwritten too and
+every expression built on top of it is evaluated once more.  Forms that keep the operand by
+reference on the pinned tree are measured and listed in the evidence, not judged.
 """
 import numpy as np
 import odl
@@ -47,23 +56,53 @@ class _Env(object):
         self.ns = dict(self.sp, odl=odl, np=np)
         exec(A.SEQDIFF_SRC, self.ns)       # the harness-defined alias-unsafe leaf class
         self.leaves = {}
-        self.used = []          # (name, element) vector operands handed to the library
+        self.used = []          # (name, element, private copy claimed) vector operands
+        self.last = None        # first-evaluation record of the last `check`
 
     def leaf(self, name):
         if name not in self.leaves:
             self.leaves[name] = eval(A.LEAVES[name]['src'], self.ns)
         return self.leaves[name]
 
-    def vec(self, name):
+    def vec(self, name, claimed=False):
         sp, lst = A.VECS[name]
         v = self.sp[sp].element(lst)
-        self.used.append((name, v))
+        self.used.append((name, v, claimed))
         return v
 
     def point(self, dom, p):
         if dom in A.FIELDS:
             return p
         return self.sp[dom].element(np.array(p, copy=True))     # never share memory with p
+
+
+_FN = odl.solvers.functional.functional.Functional
+
+# element-operand forms: (vector, operator) -> expression, written as a user writes them
+_VFORMS = {
+    'lvmul': lambda v, c: v * c, 'rvmul': lambda v, c: c * v,
+    'lvmatmul': lambda v, c: v @ c, 'rvmatmul': lambda v, c: c @ v,
+    'addv': lambda v, c: c + v, 'vadd': lambda v, c: v + c,
+    'subv': lambda v, c: c - v, 'vsub': lambda v, c: v - c,
+}
+# History clause: an expression built with the arithmetic operators is a value whose action is
+# fixed when it is built.  On the pinned tree the element operand is copied by
+#   v * A, v @ A (OperatorLeftVectorMult / FunctionalLeftVectorMult: ``other.copy()``),
+#   A * v, A @ v for a plain Operator (OperatorRightVectorMult: ``other.copy()``),
+#   A - v (``self + (-1) * other`` makes a new element);
+# it is KEPT BY REFERENCE (not judged, measured and listed in the evidence) by
+#   A + v, v + A, v - A (OperatorVectorSum: ``operator.range.element(vector)`` returns the
+#   caller's element), and f * v, f @ v for a `Functional` f (FunctionalRightVectorMult).
+BYREF_ON_PINNED_TREE = ['A+v', 'v+A', 'v-A', 'A*v[Functional]', 'A@v[Functional]']
+
+
+def private_claimed(opname, c):
+    base = A.ALIAS.get(opname, opname)
+    if base in ('lvmul', 'subv'):
+        return True
+    if base == 'rvmul':
+        return not isinstance(c, _FN)
+    return False
 
 
 def build(e, env, pre=None):
@@ -89,18 +128,10 @@ def build(e, env, pre=None):
         return B(e[1]) - S[e[2]]
     if op == 'ssub':
         return S[e[1]] - B(e[2])
-    if op == 'lvmul':
-        return env.vec(e[1]) * B(e[2])
-    if op == 'rvmul':
-        return B(e[1]) * env.vec(e[2])
-    if op == 'addv':
-        return B(e[1]) + env.vec(e[2])
-    if op == 'vadd':
-        return env.vec(e[1]) + B(e[2])
-    if op == 'subv':
-        return B(e[1]) - env.vec(e[2])
-    if op == 'vsub':
-        return env.vec(e[1]) - B(e[2])
+    if op in _VFORMS:
+        c = B(e[2] if A.OPS[op][0] == 'V' else e[1])
+        v = env.vec(e[1] if A.OPS[op][0] == 'V' else e[2], private_claimed(op, c))
+        return _VFORMS[op](v, c)
     if op == 'neg':
         return -B(e[1])
     if op == 'pos':
@@ -119,10 +150,6 @@ def build(e, env, pre=None):
         return S[e[1]] @ B(e[2])
     if op == 'rsmatmul':
         return B(e[1]) @ S[e[2]]
-    if op == 'lvmatmul':
-        return env.vec(e[1]) @ B(e[2])
-    if op == 'rvmatmul':
-        return B(e[1]) @ env.vec(e[2])
     if op == 'comptmp':
         l, r = B(e[1]), B(e[2])
         return odl.OperatorComp(l, r, tmp=l.domain.element())
@@ -162,7 +189,6 @@ def _close(got, ref, tr):
 
 _RSM = odl.operator.operator.OperatorRightScalarMult
 _LSM = odl.operator.operator.OperatorLeftScalarMult
-_FN = odl.solvers.functional.functional.Functional
 
 
 def kind(op):
@@ -209,6 +235,7 @@ def check(e, env, pre=None):
     dom, ran, lin = t[0], t[1], t[2]
     viol = []
     env.used = []
+    env.last = None
     try:
         op = build(e, env, pre)
     except Exception as exc:
@@ -250,6 +277,8 @@ def check(e, env, pre=None):
             seen.add(sym)
             viol.append((sym, det))
 
+    rec = {'used': used, 'oop': [], 'inp': []}
+    env.last = rec
     inplace = ran not in A.FIELDS
     # out aliased with the input: the table defines the value whatever `out` is, and the
     # expression classes are written to cope with it ("Write to `tmp` first, otherwise aliased
@@ -269,11 +298,14 @@ def check(e, env, pre=None):
             add('call_raises:' + type(exc).__name__,
                 head + ptxt + 'expr(x) raised %s: %s' % (type(exc).__name__, str(exc)[:200]))
             y = None
+        rec['oop'].append(None)
+        rec['inp'].append(None)
         if y is not None:
             if y not in op.range:
                 add('result_not_in_range', head + ptxt + 'got %r, range %r' % (y, op.range))
             else:
                 got = _flat(y, ran)
+                rec['oop'][-1] = got
                 if not _close(got, refa, tr):
                     add('value_differs', head + ptxt + 'expected expr(x) = %s, got %s'
                         % (_show(refa), _show(got)))
@@ -295,6 +327,7 @@ def check(e, env, pre=None):
                 if r is not out:
                     add('inplace_returns_other', head + ptxt + 'expr(x, out=out) is not out')
                 got = _flat(out, ran)
+                rec['inp'][-1] = got
                 if not _close(got, refa, tr):
                     add('inplace_value_differs',
                         head + ptxt + 'expected out = %s after expr(x, out=out), got %s'
@@ -323,11 +356,133 @@ def check(e, env, pre=None):
                     add('aliased_value_differs',
                         head + ptxt + 'y = x.copy(); expected y = %s after expr(y, out=y), got %s'
                         % (_show(refa), _show(got)))
-    for name, v in used:
+    for name, v, _ in used:
         if not np.array_equal(v.asarray(), A.vec_array(name)):
             add('operand_modified', head + 'vector operand %s is now %s'
                 % (A.vec_src(name), _show(v.asarray())))
     return viol, evals, op, flag
+
+
+def _val(r):
+    """Flat array of a result (element or scalar)."""
+    return np.array(r.asarray(), copy=True).ravel() if hasattr(r, 'asarray') else np.asarray(r)
+
+
+def _same(a, b):
+    return a is not None and b is not None and a.shape == b.shape and np.array_equal(a, b)
+
+
+def _overwrite(v, how, env):
+    """In-place modification of the caller's element after the expression was built."""
+    if how == 'v *= 2':
+        v *= 2
+    elif how == 'v as out= of another operator call':
+        sp = [k for k, s in env.sp.items() if s == v.space][0]
+        odl.ScalingOperator(v.space, -3.0)(env.point(sp, A.points(sp)[1]), out=v)
+    else:
+        v.set_zero()
+
+
+def _derived(op, env, dom, ran):
+    """{name: callable returning the value of a derived object at a probe} (built lazily)."""
+    pts = A.points(dom)
+    out = {}
+    if op.is_linear:
+        out['adjoint'] = lambda o=op: _val(o.adjoint(env.point(ran, A.points(ran)[0])))
+    out['derivative'] = lambda o=op: _val(o.derivative(env.point(dom, pts[0]))(
+        env.point(dom, pts[1])))
+    if isinstance(op, _FN):
+        out['gradient'] = lambda o=op: _val(o.gradient(env.point(dom, pts[0])))
+    return out
+
+
+def history(e, op, env, rec):
+    """The element operand of the root is overwritten after the first evaluation; every later
+    evaluation (and every derived object requested later) must still act with the ORIGINAL
+    values: bit-identical to the first evaluation, which `check` compared with the reference.
+    Returns (violations, evals, kept_by_reference)."""
+    t = A.typeof(e)
+    dom, ran = t[0], t[1]
+    if len(rec['used']) != 1 or rec['oop'][0] is None or rec['oop'][1] is None:
+        return [], 0, False
+    name, v, claimed = rec['used'][0]
+    pts = A.points(dom)
+    head = 'expr = %s with v = %s; ' % (A.src(e), A.vec_src(name))
+    evals = 0
+    viol = []
+    seen = set()
+
+    def add(sym, det):
+        if sym not in seen:
+            seen.add(sym)
+            viol.append((sym, det))
+
+    def again(ip, how, inplace=False):
+        x = env.point(dom, pts[ip])
+        try:
+            if inplace:
+                out = op.range.element()
+                op(x, out=out)
+                got = _flat(out, ran)
+            else:
+                got = _flat(op(x), ran)
+        except Exception as exc:
+            add('history_raises:' + type(exc).__name__,
+                head + 'after %s: expr(x) raised %s: %s' % (how, type(exc).__name__,
+                                                            str(exc)[:200]))
+            return True
+        first = rec['inp'][ip] if inplace else rec['oop'][ip]
+        if _same(got, first):
+            return True
+        add('history_value_differs',
+            head + 'x = %s; first evaluation %s (= reference); after the caller did `%s` on his '
+            'v: %s' % (_show(pts[ip]), _show(first), how, _show(got)))
+        return False
+
+    if not claimed:
+        # measured only: does the pinned tree keep the operand by reference?
+        _overwrite(v, 'v *= 2', env)
+        x = env.point(dom, pts[1])
+        try:
+            got = _flat(op(x), ran)
+        except Exception:
+            return [], 1, False
+        return [], 1, not _same(got, rec['oop'][1])
+    der = _derived(op, env, dom, ran)
+    before = {}
+    for k, f in der.items():
+        try:
+            before[k] = f()
+            evals += 1
+        except Exception:
+            pass                    # not available for this expression (C05 / C06 judge that)
+    _overwrite(v, 'v *= 2', env)
+    evals += 1
+    again(0, 'v *= 2')
+    how = 'v as out= of another operator call'
+    _overwrite(v, how, env)
+    evals += 1
+    again(1, how)
+    for k in before:
+        evals += 1
+        try:
+            after = der[k]()
+        except Exception as exc:
+            add('history_raises:' + type(exc).__name__,
+                head + 'after %s: expr.%s raised %s: %s' % (how, k, type(exc).__name__,
+                                                             str(exc)[:200]))
+            continue
+        if not _same(after, before[k]):
+            add('history_derived_differs:' + k,
+                head + 'expr.%s requested after the caller overwrote his v (%s) gives %s, '
+                'requested before: %s' % (k, how, _show(after), _show(before[k])))
+    _overwrite(v, 'v.set_zero()', env)
+    evals += 1
+    if ran not in A.FIELDS and rec['inp'][0] is not None:
+        again(0, 'v.set_zero()', inplace=True)
+    else:
+        again(0, 'v.set_zero()')
+    return viol, evals, False
 
 
 def _confirm_by_source(e, env, viol):
@@ -381,6 +536,8 @@ def run(cfg):
     # the child itself is judged by the state that generated it; here it only has to be sound
     # to serve as an operand
     cviol, cevals, cop, _ = check(child, env)
+    child_used = env.last['used'] if env.last else []
+    child_first = env.last['oop'][0] if env.last else None
     is_leaf = child[0] == 'L'
     if cfg['mode'] == 'pairs':
         partners = A.level(pool, 1)
@@ -407,6 +564,8 @@ def run(cfg):
     sigs = set()
     first = {}
     partner_ok = {}
+    byref = set()
+    kept = []           # (expression, object, site, first value at x1) of the sound roots
     for e in exprs:
         t = A.typeof(e)
         assert t is not None, 'ill-typed expression enumerated: %r' % (e,)
@@ -441,15 +600,62 @@ def run(cfg):
         evals += ne
         nexpr += 1
         site = site_of(e, env, pre)
+        rec = env.last
+        if not viol and rec is not None:
+            touched = False
+            if 'V' in A.OPS[e[0]]:
+                hv, he, ref_kept = history(e, op, env, rec)
+                viol = hv
+                evals += he
+                touched = ref_kept
+                if ref_kept:
+                    byref.add(site.split('/')[0])
+            if not touched and not viol and rec['oop'][0] is not None:
+                kept.append((e, op, site, rec['oop'][0]))
         sigs.add('%s|%s|%s|%s' % (site, type(op).__name__ if op is not None else '-',
                                   flag, ','.join(sorted(s for s, _ in viol))))
         for sym, det in viol:
             if (site, sym) not in first:
                 _confirm_by_source(e, env, viol)
                 first[(site, sym)] = det
+    # history clause for the element operands INSIDE the child: the caller overwrites them now;
+    # every expression built on top of the child must still give its first value
+    inner = [(n, v) for n, v, claimed in child_used if claimed]
+    if inner and kept:
+        for how in ('v *= 2', 'v as out= of another operator call'):
+            for n, v in inner:
+                _overwrite(v, how, env)
+        # a child that itself follows the overwritten operand is reported by the state in
+        # which it was the root; the expressions on top of it are then not judged again
+        try:
+            cgot = _flat(cop(env.point(tc[0], A.points(tc[0])[0])), tc[1])
+        except Exception:
+            cgot = None
+        if not _same(cgot, child_first):
+            skipped += len(kept)
+            kept = []
+        for e, op, site, val in kept:
+            evals += 1
+            sym = det = None
+            dom, ran = A.typeof(e)[:2]
+            p0 = A.points(dom)[0]
+            try:
+                got = _flat(op(env.point(dom, p0)), ran)
+                if not _same(got, val):
+                    sym = 'history_value_differs'
+                    det = ('expr = %s; x = %s; first evaluation %s; after the caller overwrote '
+                           'the element operand(s) %s of the sub-expression in place: %s'
+                           % (A.src(e), _show(p0), _show(val),
+                              ', '.join(A.vec_src(n) for n, _ in inner), _show(got)))
+            except Exception as exc:
+                sym = 'history_raises:' + type(exc).__name__
+                det = 'expr = %s; after overwriting the operands of the sub-expression: %s' % (
+                    A.src(e), str(exc)[:200])
+            if sym and (site, sym) not in first:
+                first[(site, sym)] = det
     return {'evals': evals, 'skipped': skipped, 'sig': sorted(sigs), 'trivial': nexpr == 0,
             'viol': [{'site': s, 'symptom': y, 'detail': d} for (s, y), d in first.items()],
-            'nexpr': nexpr, 'cmp': list(MODE)}
+            'nexpr': nexpr, 'cmp': list(MODE), 'byref': sorted(byref)}
 
 
 def summarize(results):
@@ -461,7 +667,9 @@ def summarize(results):
         by[k] = by.get(k, 0) + r.get('nexpr', 0)
     ex = sum(r.get('cmp', [0, 0])[0] for _, r in results)
     tol = sum(r.get('cmp', [0, 0])[1] for _, r in results)
+    ref = sorted(set(x for _, r in results for x in r.get('byref', [])))
     return {'expressions_checked': n, 'expressions_by_level': by,
+            'operand_kept_by_reference_on_pinned_tree(measured, not judged)': ref,
             'comparisons_exact_equality': ex, 'comparisons_with_tolerance': tol}
 
 
@@ -490,6 +698,14 @@ def meta(tier):
          'points per expression': 'x1, x2, x1+x2, 0 of the domain; out-of-place and in-place; '
                                   'x1, x2 also in-place with out aliased to the input when '
                                   'domain == range and every leaf is alias-safe',
+         'history clause': 'element operand overwritten in place (v *= 2; v as out= of another '
+                           'operator call; v.set_zero()) after the first evaluation: value at '
+                           'x1, x2 (out-of-place) and x1 (in-place), adjoint / derivative / '
+                           'gradient requested before and after, all bit-identical; judged for '
+                           'v*A, v@A (operators and functionals), A*v, A@v (plain operators), '
+                           'A-v; and once more, at x1, for every expression built on a child '
+                           'whose inner element operands are overwritten',
+         'operand kept by reference on the pinned tree (not judged)': BYREF_ON_PINNED_TREE,
          'tmp forms (over leaf pairs)': ['OperatorComp(A,B,tmp)',
                                          'OperatorSum(A,B,tmp_ran,tmp_dom)',
                                          'OperatorRightScalarMult(A,a,tmp)']}
@@ -522,6 +738,14 @@ def meta(tier):
             'an expression whose operand already violates is not judged again (counted as '
             'skipped); the operand is reported by the state that generated it',
             'A / a is enumerated only for scalars in both fields and a != 0',
+            'history clause: claimed exactly for the forms whose element operand the pinned '
+            'tree copies (v*A, v@A -> other.copy(); A*v, A@v on a plain Operator -> other.copy(); '
+            'A-v -> new element (-1)*v). A+v, v+A, v-A (OperatorVectorSum keeps '
+            'range.element(vector), i.e. the caller\'s object) and f*v, f@v for a Functional f '
+            '(FunctionalRightVectorMult(self, other)) keep the operand by reference on the '
+            'pinned tree: measured, listed under operand_kept_by_reference_on_pinned_tree, not '
+            'judged. Scalars are immutable; arrays / lists are not accepted as operands by the '
+            'overloads (not `in` the space), so they are not part of the alphabet',
             'unspecified (counted under unspecified_skipped, not judged, not reused as operands): '
             'E * a and E / a for E defined on a field (Operator.__mul__ and the class docstring '
             'require a LinearSpace domain, the constructor docstring admits a Field); results '
